@@ -380,6 +380,20 @@ impl<'a> VisitMut for Norm<'a> {
         visit_mut::visit_expr_path_mut(self, p);
     }
 
+    fn visit_expr_struct_mut(&mut self, s: &mut ExprStruct) {
+        // R-TYPE on the path of a struct literal: `a::b::T { .. }` with `@type-map a::b::T => T`
+        if s.qself.is_none() {
+            let key = squash(&ts(&s.path));
+            if let Some((_, to)) = self.unit.type_map.iter().find(|(f, _)| f == &key) {
+                if let Ok(np) = parse_str::<Path>(to) {
+                    s.path = np;
+                    self.bump("R-TYPE");
+                }
+            }
+        }
+        visit_mut::visit_expr_struct_mut(self, s);
+    }
+
     fn visit_block_mut(&mut self, b: &mut Block) {
         let old = std::mem::take(&mut b.stmts);
         for mut s in old {
